@@ -116,8 +116,15 @@ impl UnclaimedSender {
     /// ```
     pub async fn claim(mut self) -> Result<Sender, Error> {
         self.inner.set_claimed();
-        let (capacity_added, capacity) = self.client().claim_sender(self.cookie()).await?;
-        Ok(Sender::new(self.inner, capacity_added, capacity))
+
+        match self.client().claim_sender(self.cookie()).await {
+            Ok((capacity_added, capacity)) => Ok(Sender::new(self.inner, capacity_added, capacity)),
+
+            Err(e) => {
+                self.inner.set_closed();
+                Err(e)
+            }
+        }
     }
 }
 
@@ -235,11 +242,13 @@ impl UnclaimedReceiver {
     pub async fn claim(mut self, capacity: u32) -> Result<Receiver, Error> {
         self.inner.set_claimed();
 
-        let (items, max_capacity) = self
-            .client()
-            .claim_receiver(self.cookie(), capacity)
-            .await?;
+        match self.client().claim_receiver(self.cookie(), capacity).await {
+            Ok((items, max_capacity)) => Ok(Receiver::new(self.inner, items, max_capacity)),
 
-        Ok(Receiver::new(self.inner, items, max_capacity))
+            Err(e) => {
+                self.inner.set_closed();
+                Err(e)
+            }
+        }
     }
 }
